@@ -182,6 +182,8 @@ fn plan_inner(prop: &str, tier: &str) -> Option<Plan> {
                 if matches!(prop, "C04" | "C05" | "C06" | "C07" | "C08" | "C09" | "C10") {
                     let (nmax, sh) = if tier == "quick" { (if matches!(prop, "C06" | "C07" | "C10") { 17 } else { 20 }, 8) } else { (40, 16) };
                     jobs.extend(sharded(prop, "gsweep", f, tier, json!({"n": 0, "max_l": 0, "large": nmax}), sh));
+                    // high-degree hubs on 4 nodes: every degree 1..=72 (quick) / 1..=120 (thorough)
+                    jobs.extend(sharded(prop, "gsweep", f, tier, json!({"n": 0, "max_l": 0, "hubs": if tier == "quick" { 72 } else { 120 }}), if tier == "quick" { 4 } else { 8 }));
                 }
                 // larger graphs up to renaming of the nodes (value-independent kinds only: bfs, dfs, orderings)
                 if matches!(prop, "C04" | "C05" | "C09" | "C10") {
